@@ -11,7 +11,16 @@ import subprocess
 import sys
 
 VERIF = os.path.dirname(os.path.dirname(os.path.abspath(__file__)))
-REPO = "/repo"
+REPO = os.environ.get("SELFTEST_REPO", "/tmp/verif_selftest_repo")   # a scratch worktree: /repo itself is never touched
+
+
+def prepare_repo():
+    """detached worktree of /repo at its current HEAD (plus nothing else); created on first use"""
+    head = subprocess.run("git -C /repo rev-parse HEAD", shell=True, capture_output=True, text=True).stdout.strip()
+    if not os.path.isdir(os.path.join(REPO, ".git")) and not os.path.isfile(os.path.join(REPO, ".git")):
+        subprocess.run("git -C /repo worktree prune; git -C /repo worktree add --detach %s %s" % (REPO, head), shell=True, capture_output=True)
+    subprocess.run("git -C %s checkout -q --detach %s && git -C %s checkout -- ." % (REPO, head, REPO), shell=True, capture_output=True)
+    os.environ["VERIF_REPO"] = REPO
 
 
 def sh(cmd, **kw):
@@ -21,6 +30,7 @@ def sh(cmd, **kw):
 def main():
     muts = json.load(open(os.path.join(VERIF, "selftest", "benign.json")))
     sel = sys.argv[1:]
+    prepare_repo()
     dirty = sh("git -C %s status --porcelain --untracked-files=no" % REPO).stdout.strip()
     if dirty:
         raise SystemExit("refusing: /repo has uncommitted changes:\n" + dirty)
